@@ -308,7 +308,7 @@ def drawing(draw, min_symbols=3, max_symbols=6, symbol_pool=None, sources_v=None
     take = iter(pts)
     home = [next(take) for _ in range(n)]
     names = draw(st.lists(gen.label.filter(lambda x: x != '0'), min_size=len(edges), max_size=len(edges), unique=True))   # '0' is the ground symbol's id
-    w0 = draw(st.sampled_from([1.0, 50.0, 314.0, 1000.0]))
+    w0 = draw(st.sampled_from([1.0, 50.0, 314.0, 1000.0, 314.1592653589793, 2.5, 0.5]))
     items, nsrc = [], 0
     for (a, b, on_tree), name in zip(edges, names):
         roll = draw(st.sampled_from(range(10)))
